@@ -6,6 +6,7 @@ package c13
 import (
 	"bytes"
 	"fmt"
+	"runtime"
 	"sort"
 	"strings"
 	"testing"
@@ -275,11 +276,24 @@ func run(pl Plan) (res vfx.Result) {
 			extractPacket(c, 0, ex)
 		}
 	}
+	if stream && vfx.IsKnown("C13-msgpack-stream-alloc") {
+		for _, c := range append(cands, raw) {
+			if hasBig32(c) {
+				// listed known finding: a 32-bit msgpack length header on the stream path is allocated
+				// before the data arrives (go-msgpack's reader based decoder); excluded by construction
+				res.Known = "C13-msgpack-stream-alloc"
+				res.Labels = []string{"excluded:msgpack-32bit-length-on-stream"}
+				return res
+			}
+		}
+	}
 	before, err := p.Dump()
 	if err != nil {
 		return fail("dump before: %v", err)
 	}
 	evIdx := p.Rec.Len()
+	var ms0 runtime.MemStats
+	runtime.ReadMemStats(&ms0)
 	// ---- deliver ----
 	var conn interface {
 		PeerClosed() bool
@@ -311,6 +325,12 @@ func run(pl Plan) (res vfx.Result) {
 	p.Settle()
 	time.Sleep(400 * time.Millisecond)
 	p.Settle()
+	// ---- no memory amplification: the largest documented buffer is the 40 MiB decompression cap ----
+	var ms1 runtime.MemStats
+	runtime.ReadMemStats(&ms1)
+	if grown := (ms1.TotalAlloc - ms0.TotalAlloc) >> 20; grown > 512 {
+		return fail("%s/%s/%+v: a %d-byte input made the process allocate %d MiB (no documented cap allows more than 40 MiB per message)", g.Name, pl.Layer, pl.M, len(raw), grown)
+	}
 	// ---- the node is still alive and serving both listeners ----
 	after, err := p.Dump()
 	if err != nil {
@@ -377,6 +397,19 @@ func run(pl Plan) (res vfx.Result) {
 	return res
 }
 
+// hasBig32 reports whether b contains a msgpack str32 / bin32 / ext32 header
+// (0xdb, 0xc6, 0xc9) declaring more than 8 MiB, at any offset.
+func hasBig32(b []byte) bool {
+	for i := 0; i+4 < len(b); i++ {
+		if b[i] == 0xdb || b[i] == 0xc6 || b[i] == 0xc9 {
+			if n := uint32(b[i+1])<<24 | uint32(b[i+2])<<16 | uint32(b[i+3])<<8 | uint32(b[i+4]); n > 8<<20 {
+				return true
+			}
+		}
+	}
+	return false
+}
+
 func keys(m map[string]bool) []string {
 	var k []string
 	for x := range m {
@@ -437,4 +470,33 @@ func TestSingleByteSweep(t *testing.T) {
 		vfx.SetExhaustive("TestHostileInputs", "sweep: positions x {truncate, 6 substitutions} x {plain, encrypted} for genuine plaintexts <= 400 bytes")
 	}
 	_ = strings.Repeat
+}
+
+// TestKnownMsgpackStreamAlloc re-demonstrates the listed known finding
+// C13-msgpack-stream-alloc with one fixed input; it reports, never fails.
+func TestKnownMsgpackStreamAlloc(t *testing.T) {
+	if !vfx.IsKnown("C13-msgpack-stream-alloc") {
+		t.Skip("not listed as known")
+	}
+	// a TCP ping whose second key is an ext32 header declaring 1.9 GB
+	in := []byte{0, 130, 164, 78, 111, 100, 101, 162, 110, 48, 165, 83, 101, 170, 212, 139, 201, 113, 127, 255, 255, 255, 9}
+	var grown uint64
+	synctest.Test(t, func(t *testing.T) {
+		w, err := hostile.NewWorld(1, hostile.Cfg{})
+		if err != nil {
+			t.Fatal(err)
+		}
+		defer w.Close()
+		var ms0, ms1 runtime.MemStats
+		runtime.ReadMemStats(&ms0)
+		_, _ = w.Deliver(in, true)
+		runtime.ReadMemStats(&ms1)
+		grown = (ms1.TotalAlloc - ms0.TotalAlloc) >> 20
+	})
+	if grown > 512 {
+		vfx.ReportKnown(t.Name(), "C13-msgpack-stream-alloc", fmt.Sprintf("a %d-byte stream message whose msgpack ext32 header declares 1.9 GB made the node allocate %d MiB before the read failed", len(in), grown))
+	} else {
+		vfx.Note(t.Name(), "known finding C13-msgpack-stream-alloc did not reproduce (allocated %d MiB)", grown)
+	}
+	vfx.Record(t.Name(), map[string]any{"input": in}, vfx.Result{Labels: []string{"known-finding-regression"}})
 }
